@@ -13,7 +13,7 @@ DECIDING = ["train_outputs_compared", "covariances_checked", "new_data_outputs_c
 BUDGET = {"quick": 90, "thorough": 900}
 ANCHORED = ["CorrelationRemover.fit", "CorrelationRemover.transform", "CorrelationRemover._split_X", "CorrelationRemover._create_lookup"]
 RULE = ("random real matrices: n in 2..40 rows, 1..4 sensitive and 1..5 other columns at arbitrary positions, ids in arbitrary "
-        "order, by position (ndarray) or by name (DataFrame), columns with very different means/scales, a share with collinear, "
+        "order, by position (ndarray) or by name (DataFrame; labels are strings, digit strings, integers that permute the positions or integers outside 0..p-1), columns with very different means/scales, a share with collinear, "
         "duplicated or constant sensitive columns and with n <= #sensitive; alpha in {0,0.3,1}. Oracle: per-column centring + "
         "pseudo-inverse projection (refs/corr.py); covariance of every alpha=1 output column with every sensitive column; "
         "transform on new data vs the learned affine map (full rank) or train-consistency + affinity (rank deficient); "
@@ -72,7 +72,17 @@ def run_case(cls, key, seed, ctx):
         rank_class = "onehot"
     alpha = float(gen.pick(rng, [1.0, 1.0, 0.3, 0.0]))
     use_df = rng.random() < 0.5
-    names = ["col%d" % j for j in range(p)]
+    # column labels of the DataFrame variant: strings, integer labels that are a permutation of the positions (a label is then a
+    # valid but WRONG position), integers outside 0..p-1, or digit strings
+    label_style = gen.pick(rng, ["str", "str", "int_permuted", "int_permuted", "int_offset", "digit_str"])
+    if label_style == "str":
+        names = ["col%d" % j for j in range(p)]
+    elif label_style == "int_permuted":
+        names = [int(v) for v in rng.permutation(p)]
+    elif label_style == "int_offset":
+        names = [int(v) for v in (rng.permutation(p) * 3 + 7)]
+    else:
+        names = [str(int(v)) for v in rng.permutation(p)]
     if use_df:
         Xin = pd.DataFrame(X, columns=names, index=gen.hostile_index(n, gen.pick(rng, gen.INDEX_KINDS), rng))
         ids = [names[j] for j in sens_pos]
@@ -91,9 +101,9 @@ def run_case(cls, key, seed, ctx):
     ctx.mark([n, ns, no, sorted(sens_pos) == sens_pos, use_df, alpha, regime, rank_class, style],
              bool((S.std(axis=0) > 0).any()),
              sample={"X": X.tolist() if n <= 8 else X[:4].tolist(), "sensitive_feature_ids": [str(i) for i in ids], "alpha": alpha,
-                     "container": "DataFrame" if use_df else "ndarray", "regime": regime})
+                     "container": "DataFrame" if use_df else "ndarray", "regime": regime, "column_labels": [repr(v) for v in names] if use_df else None})
     NK = "rank_deficient_block_with_centring_roundoff_above_lstsq_cutoff"
-    wit = {"n": n, "sensitive_positions": sens_pos, "ids": [str(i) for i in ids], "alpha": alpha, "df": use_df, "rank_class": rank_class,
+    wit = {"n": n, "sensitive_positions": sens_pos, "ids": [str(i) for i in ids], "alpha": alpha, "df": use_df, "column_labels": [repr(v) for v in names] if use_df else None, "rank_class": rank_class,
            "regime": regime,
            "X": X.tolist() if n * p <= 60 else "large"}
     if cls == "refit":
